@@ -115,6 +115,8 @@ class Explorer:
         self.solver_calls = 0
         self.solver_seconds = 0.0
         self.paths = []
+        self.prefer = None      # optional callback(cond) -> True/False/None : deliberate cut (recorded)
+        self.cuts = []
 
     # -- one run ------------------------------------------------------------
     def _feasible(self, path_conds, cond):
@@ -160,6 +162,14 @@ class Explorer:
                 can_f = vf != "unsat"
                 if vt == "unknown" or vf == "unknown":
                     _unk[0] = True
+                if can_t and can_f and self.prefer is not None:
+                    pref = self.prefer(cond)
+                    if pref is not None:
+                        # deliberate cut: only this side is explored; it becomes part of the path condition
+                        self.cuts.append((cond, bool(pref)))
+                        _decisions.append((cond, bool(pref), True))
+                        _pc.append(cond if pref else cond_not(cond))
+                        return bool(pref)
                 if can_t and can_f:
                     # fork: take True now, schedule False
                     alt = [(o, f) for (_, o, f) in _decisions] + [(False, True)]
